@@ -112,7 +112,33 @@ def run(ctx):
         for key, why in why_all:
             fails.append(dict(key=key, why=why, spec=S.describe(spec), faults=plan, store=store, case_index=i,
                               store_calls=[list(c) for c in obs.calls]))
-    ctx.programs += n
+    # a run RESUMED by a new server process (no start event) that then dies of a store error without a terminal event:
+    # its handler must not stay "running" either
+    nrf, died = ctx.n(10, 120), 0
+    for i in range(nrf):
+        spec2 = S.gen_spec(rng, ["fan", "wait", "success", "fan"][i % 4])
+        k = rng.choice([1, 2, 2, 3])
+        store = "sqlite" if i % 3 == 2 else "memory"
+        try:
+            o2 = S.crash_case(spec2, store, ctx.scratch, "c15_rf_%d" % i, k, plan2={"event": [True]})
+        except Exception as ex:  # noqa: BLE001
+            fails.append(dict(key="service-error", why="the server stack raised %r while a resumed run met a store fault" % (ex,),
+                              spec=S.describe(spec2), faults={"event_after_restart": [True]}, store=store, case_index=-1, store_calls=[]))
+            continue
+        ctx.count(1, ("resumed-fault", spec2["kind"], store, k))
+        consumed = not (o2.plan2_left.get("event") or [])
+        if not o2.crashed or not consumed:
+            continue
+        died += 1
+        rec_ = S.e_record(o2.record)
+        if rec_[:2] == [1, 0]:      # record exists, status running
+            fails.append(dict(key="resumed-run-dies-handler-running",
+                              why="a run resumed by a new server process after a stop at persisted tick %d met one failing append_event "
+                                  "(the engine run ends with that error, no terminal event): the handler record is still 'running'" % k,
+                              spec=S.describe(spec2), faults={"event_after_restart": [True]}, store=store, case_index=-1,
+                              store_calls=[list(c) for c in o2.calls2]))
+    cov["resumed_runs_killed_by_store_fault"] = died
+    ctx.programs += n + nrf
     res = ctx.run_cases("server", S.HEADER, exprs, shard=ctx.n(9, 40))
     bad = [i for i, z in enumerate(res) if z != 0]
     ctx.disagreements += len(bad)
@@ -136,7 +162,8 @@ def run(ctx):
     for need in ("1", "2", "3", "4", "6", "7"):
         ctx.require_coverage("server", "outcome_" + need, cov["outcome"].get(need, 0), 2)
     ctx.require_coverage("server", "store_sqlite", cov["store"].get("sqlite", 0), 10)
-    for k in ("retry_exhausted", "retry_recovered", "event_fault", "watcher_write", "idle_published", "transient_twins"):
+    for k in ("retry_exhausted", "retry_recovered", "event_fault", "watcher_write", "idle_published", "transient_twins",
+              "resumed_runs_killed_by_store_fault"):
         ctx.require_coverage("server", k, cov[k], 2)
 
 
